@@ -66,6 +66,95 @@ func verifRaceDriverNative() {
 			_ = db.idx.insert(ctx, pointer{TimeRange: telem.TimeRange{Start: s, End: s + 2*telem.SecondTS}, fileKey: 1, size: 1}, false)
 		}
 	}()
+	// update traffic: one writer keeps extending a domain into its neighbour (the conflict-error path of update)
+	// while the neighbour's own writer keeps committing
+	base := telem.TimeStamp(200000) * telem.SecondTS
+	_ = db.idx.insert(ctx, pointer{TimeRange: telem.TimeRange{Start: base, End: base + telem.SecondTS}, fileKey: 1, size: 1}, false)
+	_ = db.idx.insert(ctx, pointer{TimeRange: telem.TimeRange{Start: base + 20*telem.SecondTS, End: base + 21*telem.SecondTS}, fileKey: 1, size: 1}, false)
+	_ = db.idx.insert(ctx, pointer{TimeRange: telem.TimeRange{Start: base - 20*telem.SecondTS, End: base - 19*telem.SecondTS}, fileKey: 1, size: 1}, false)
+	wg.Add(3)
+	go func() {
+		defer wg.Done()
+		for it := 0; it < 300; it++ {
+			_ = db.idx.update(ctx, pointer{TimeRange: telem.TimeRange{Start: base, End: base + 30*telem.SecondTS}, fileKey: 1, size: 2}, false)
+		}
+	}()
+	go func() {
+		defer wg.Done()
+		for it := 0; it < 300; it++ {
+			s := base + 20*telem.SecondTS
+			_ = db.idx.update(ctx, pointer{TimeRange: telem.TimeRange{Start: s, End: s + telem.TimeStamp(it%5+1)*telem.SecondTS}, fileKey: 1, size: uint32(it%5 + 1)}, false)
+		}
+	}()
+	go func() {
+		defer wg.Done()
+		for it := 0; it < 300; it++ {
+			s := base - 20*telem.SecondTS
+			_ = db.idx.update(ctx, pointer{TimeRange: telem.TimeRange{Start: s, End: s + telem.TimeStamp(it%5+1)*telem.SecondTS}, fileKey: 1, size: uint32(it%5 + 1)}, false)
+		}
+	}()
+	wg.Wait()
+	_ = db.Close()
+}
+
+func verifNewMemFS() xfs.FS { return xfs.NewMem() }
+
+func verifGCRaceDriverNative() {
+	db, err := Open(Config{FS: xfs.NewMem(), FileSize: 40, GCThreshold: 0.05})
+	if err != nil {
+		panic(err)
+	}
+	ctx := context.Background()
+	no := false
+	write := func(k int) {
+		start := telem.TimeStamp(k*10+1) * telem.SecondTS
+		w, err := db.OpenWriter(ctx, WriterConfig{Start: start, EnableAutoCommit: &no})
+		if err != nil {
+			return
+		}
+		_, _ = w.Write([]byte{1, 2, 3, 4, 5, 6, 7, 8})
+		_ = w.Commit(ctx, start+5*telem.SecondTS)
+		_ = w.Close()
+	}
+	for k := 0; k < 40; k++ {
+		write(k)
+	}
+	var wg sync.WaitGroup
+	stop := make(chan struct{})
+	wg.Add(2)
+	go func() { // index readers
+		defer wg.Done()
+		for {
+			select {
+			case <-stop:
+				return
+			default:
+			}
+			_, _ = db.HasDataFor(ctx, telem.TimeRange{Start: 0, End: telem.TimeStamp(5000) * telem.SecondTS})
+			it := db.OpenIterator(IterRange(telem.TimeRangeMax))
+			for ok := it.SeekFirst(ctx); ok; ok = it.Next() {
+				_ = it.Size()
+			}
+			_ = it.Close()
+		}
+	}()
+	go func() { // deletes create tombstones, garbage collection compacts them
+		defer wg.Done()
+		head := func(_ context.Context, _ telem.TimeStamp, t telem.TimeStamp) (telem.Size, telem.TimeStamp, error) {
+			return 2, t, nil
+		}
+		tail := func(_ context.Context, _ telem.TimeStamp, t telem.TimeStamp) (telem.Size, telem.TimeStamp, error) {
+			return 6, t, nil
+		}
+		for k := 0; k < 40; k++ {
+			s := telem.TimeStamp(k*10+1) * telem.SecondTS
+			_ = db.Delete(ctx, telem.TimeRange{Start: s + telem.SecondTS, End: s + 2*telem.SecondTS}, head, tail)
+			if k%4 == 3 {
+				_ = db.GarbageCollect(ctx)
+			}
+		}
+		close(stop)
+	}()
 	wg.Wait()
 	_ = db.Close()
 }
